@@ -6,13 +6,14 @@ import PV.Driver.Util
 Ops (one answer line each):
   `sys <name> <N | eERRNO> [d=<hex>] [sa=<hex>] [v=<int>] [l=<int>] [x=<int>]`   append one native result to the script
   (`poll`: `v=` extra revents bits reported with the requested ones, `x=` revents given exactly; `setblk` / `setka` / `bind`'s reuse
-  flag take any C int, non-zero = TRUE)
+  flag take any C int, non-zero = TRUE; so do `shutdown`'s two flags — the code compares them with `== TRUE`, the model follows it
+  (`shutdownArgs`) and the spec line is the call with every non-zero value read as TRUE)
   `new s fam type proto` · `newfd s fd` · `free s` · `initonce` · `reset`
   `bind s addr reuse` · `connect s addr` · `listen s` · `accept s newslot` · `recv s buflen [null]`
   `recvfrom s buflen want [null]` · `send s <hex|null> [buflen]` · `sendto s addr <hex|null> [buflen]`
   `close s` · `shutdown s r w` · `setbuf s dir size` · `wait s cond` · `chk s` · `setka s b` · `setblk s b`
   `setbl s n` · `setto s n` · `local s` · `remote s`
-  (addr = `null` or the sockaddr in hex)
+  (addr = `null`, the sockaddr in hex, or `bad:<hex>` = an address object that `p_socket_address_to_native` rejects)
 
 Answer of a call: `r=… e=… d=… a=… iss=… left=… g=… n=… cx=… ns=… sw=…` (see `fmtLine`); the script left
 over after a call is dropped.  After `exhausted` / `mismatch` / `fault` every op answers `dead` until `reset`.
@@ -61,7 +62,9 @@ def parseExtras (r : Res) : List String → Option Res
     else none
 
 def parseAddr (s : String) : Option Addr :=
-  if s = "null" then some .null else (bytesOfHex s).map .native
+  if s = "null" then some .null
+  else if s.startsWith "bad:" then (bytesOfHex (s.drop 4).toString).map fun _ => .bad
+  else (bytesOfHex s).map .native
 
 def parseBool : String → Option Bool
   | "0" => some false | "1" => some true | _ => none
@@ -70,6 +73,12 @@ def parseBool : String → Option Bool
 def parsePBool (s : String) : Option Bool :=
   match parseInt s with
   | some n => if n < -2147483648 ∨ n > 2147483647 then none else some (n ≠ 0)
+  | none => none
+
+/-- a C `int` argument -/
+def parseCInt (s : String) : Option Int :=
+  match parseInt s with
+  | some n => if n < -2147483648 ∨ n > 2147483647 then none else some n
   | none => none
 
 def hexOrDash (b : Bytes) : String := if b.isEmpty then "-" else hexOfBytes b
@@ -155,12 +164,10 @@ def fmtStop : Stop → String
   | .mismatch c g => s!"mismatch {sysName c} {sysName g}"
   | .fault w => "fault " ++ w.replace " " "_"
 
-/-- run one API call, print, update -/
-def doCall (st : DSt) (c : WCall) : IO (DSt × Bool) := do
+/-- run one API call on the model: answer line, the spec's line, and the state afterwards -/
+def evalCall (st : DSt) (c : WCall) : Except Stop (String × String × DSt) :=
   match wstep st.world c st.script 0 with
-  | .error w =>
-    IO.println (fmtStop w)
-    return ({ st with dead := true, script := [] }, false)
+  | .error w => .error w
   | .ok r =>
     let (slot, newSlot) : Option Nat × Option Nat := match c with
       | .new s .. => (none, some s) | .newFromFd s _ => (none, some s)
@@ -194,8 +201,23 @@ def doCall (st : DSt) (c : WCall) : IO (DSt × Bool) := do
     let nsS := if ns = "0" then "1" else ns
     let line := fmtLine { out := r.out, tr := r.tr, left := r.rest.length, g := g, n := n, cx := cx, ns := ns, sw := swallowed r.tr }
     let lineS := fmtLine { out := r.out, tr := r.tr, left := r.rest.length, g := gS, n := nS, cx := cxS, ns := nsS }
+    .ok (line, lineS, { st with world := r.world, spec := sp, script := [] })
+
+/-- run one API call, print, update.  `cSpec`: the call as the caller means it, when the code reads its arguments
+    differently (`p_socket_shutdown` with a `pboolean` other than 0 / 1): the spec's line is then the one of that call. -/
+def doCall (st : DSt) (c : WCall) (cSpec : Option WCall := none) : IO (DSt × Bool) := do
+  match evalCall st c with
+  | .error w =>
+    IO.println (fmtStop w)
+    return ({ st with dead := true, script := [] }, false)
+  | .ok (line, lineS, st') =>
+    let lineS := match cSpec with
+      | none => lineS
+      | some c' => match evalCall st c' with
+        | .ok (_, l', _) => l'
+        | .error w => fmtStop w
     IO.println (if line = lineS then line else line ++ " SPECDIFF " ++ lineS)
-    return ({ st with world := r.world, spec := sp, script := [] }, false)
+    return (st', false)
 
 def bad (st : DSt) : IO (DSt × Bool) := do IO.println "bad-op"; return (st, false)
 
@@ -268,8 +290,11 @@ def step (st : DSt) (toks : List String) : IO (DSt × Bool) := do
     | _, _, _, _ => bad st
   | ["close", s] => match nat s with | some s => doCall st (.on s .close) | none => bad st
   | ["shutdown", s, r, w] =>
-    match nat s, parseBool r, parseBool w with
-    | some s, some r, some w => doCall st (.on s (.shutdown r w))
+    match nat s, parseCInt r, parseCInt w with
+    | some s, some r, some w =>
+      let (mr, mw) := shutdownArgs r w
+      let (sr, sw) := Spec.shutdownArgs r w
+      doCall st (.on s (.shutdown mr mw)) (if (mr, mw) = (sr, sw) then none else some (.on s (.shutdown sr sw)))
     | _, _, _ => bad st
   | ["setbuf", s, d, n] =>
     match nat s, parseInt d, nat n with
